@@ -244,6 +244,9 @@ func (s *Sess) RemovePDR(req *ie.IE) ([]report.USAReport, error) {
 		}
 	}
 	delete(s.PDRIDs, pdrid)
+	// packets buffered for this PDR go with it: a PDR created later under
+	// the same id must not release them
+	delete(s.q, pdrid)
 	return usars, nil
 }
 
